@@ -379,7 +379,9 @@ impl ChunkSpace {
                 "interesting-subsets" => self.interesting[group].iter().enumerate().filter(|(b, _)| (k >> b) & 1 == 1).map(|(_, &p)| p).collect(),
                 "empty-chunk-in-single-cut" => vec![k as u32, k as u32],
                 "empty-chunk-in-bytewise" => {
-                    let mut v: Vec<u32> = (1..n as u32).collect();
+                    // byte-wise for n <= 128, else uniform chunks of ceil(n/128) bytes (keeps the segment linear)
+                    let s = n.div_ceil(128).max(1);
+                    let mut v: Vec<u32> = (1..).map(|j| (j * s) as u32).take_while(|&c| (c as usize) < n).collect();
                     v.push(k as u32);
                     v.sort();
                     v
